@@ -1171,6 +1171,27 @@ class CallMixin:  # pylint:disable=too-many-public-methods
             if isinstance(args[0], Obj) and isinstance(args[1], str):
                 args[0].fields[args[1]] = args[2]
                 return None
+        if short == "abs" and len(args) == 1:
+            v_ = args[0]
+            if isinstance(v_, (int, float)) and not isinstance(v_, bool):
+                return abs(v_)
+            if isinstance(v_, Opaque):
+                return Opaque(f"abs({v_.label})", kind=v_.kind or "builtins.int")
+            if isinstance(v_, (Obj, EnumVal)) and v_.cls in self.model.classes:
+                m_ = self.model.find_method(self.model.classes[v_.cls], "__abs__")
+                if m_ is not None:
+                    return self.call(FuncVal(fn=m_, self_obj=v_, module=m_.module), [], {}, node, frame)
+            self.unsupported(node, frame, f"abs({v_!r})")
+        if short == "divmod" and len(args) == 2:
+            a_, b_ = args
+            if all(isinstance(x_, (int, float)) and not isinstance(x_, bool) for x_ in (a_, b_)):
+                if b_ == 0:
+                    self.raise_("ZeroDivisionError", "integer division or modulo by zero")
+                return divmod(a_, b_)
+            if isinstance(a_, Opaque) or isinstance(b_, Opaque):
+                la, lb = getattr(a_, "label", a_), getattr(b_, "label", b_)
+                return (Opaque(f"({la} // {lb})", kind="builtins.int"), Opaque(f"({la} % {lb})", kind="builtins.int"))
+            self.unsupported(node, frame, f"divmod({a_!r}, {b_!r})")
         if short == "globals" and not args and frame is not None:
             return Obj("builtins.module_globals", {"module": frame.module})
         if short == "len":
